@@ -168,7 +168,7 @@ RECIPES = {
                 "lengths, self-loops, out-of-range links) x present/absent names, replayed; "
                 "B: hash tables with field-aware corrupted buckets/chains; adversarial version-record chains (next in {0,1,size-1,size,2^31,2^32-1,to-end}, counts up to u64::MAX, aux "
                 "offsets up to 2^32-1, starts up to usize::MAX); items <= bytes and <= count are part of the trace spec; a call "
-                "exceeding 5 s CPU is recorded as died",
+                "exceeding 5 s CPU (inputs here are <= 64 KiB), in two identical runs in a row, is recorded as died",
         "assumptions": COMMON_ASSUME,
     },
     "C03": {
@@ -300,7 +300,7 @@ RECIPES = {
                 "tables/iterators with indices near usize::MAX, string tables, idents of every length, notes with alignments "
                 "0..2^64-1, hash tables with corrupted headers, version iterators with counts up to u64::MAX, whole objects with "
                 "every header field set to boundary values, truncations, random bytes) with overflow checks and debug assertions "
-                "on; a panic, abort or >5 s call anywhere is the violation; a case is non-trivial when it reaches a crate call",
+                "on; a panic, abort or a call over its CPU budget (5 s up to 64 KiB of input, proportional beyond; confirmed by a second identical run) anywhere is the violation; a case is non-trivial when it reaches a crate call",
         "assumptions": COMMON_ASSUME + ["observational: absence of panics is shown on the enumerated and sampled inputs only"],
     },
     "C06": {
